@@ -14,7 +14,7 @@ def run(ctx):
         for i in range(3 if q else 8):
             jobs.append(dict(cmd=[exe, "--R", str(4 if q else 25), "--concat", str(40 if q else 1500), "--seed", str(ctx.seed * 100 + i)], variant=variant, tag="%s seed%d" % (variant, i), exe=exe,
                              san_ctx="c20", hang_is_violation=False,
-                             env=({"VH_LSAN": "1", "ASAN_OPTIONS": core.SAN_ENV["ASAN_OPTIONS"].replace("detect_leaks=0", "detect_leaks=1")} if variant == "asan" else None)))
+                             env=(core.lsan_env(build.driver("asan", "c18_oom", ["c18_oom.c"], extra=["-no-pie"])) if variant == "asan" else None)))
     res = core.run_jobs(ctx, jobs, timeout=600 if q else 3600, workers=6)
     tot = {}
     for job, r in res:
